@@ -28,8 +28,8 @@ namespace Mesa.Steps
 /-- **One call, one increment — because of how `Model.__init__` binds `step`.**  Take any hierarchy, construct an instance
     (`__new__`, optionally a subclass `__init__` that assigns `self.step = f` before `super().__init__()`, then
     `Model.__init__`: `self._user_step = self.step; self.step = self._wrapped_step`), and let the program do anything that
-    does not re-bind the name `step` on the instance — calls with any arguments, raising or not, assignments to
-    `_user_step`.  Then the next `model.step(*args)` finds the wrapper in the instance `__dict__`, advances `steps` by
+    does not re-bind the name `step` on the instance — calls with any arguments, returning normally or leaving with an
+    exception (a `TypeError` of the class chain, a `RuntimeError` raised by user code), assignments to `_user_step`.  Then the next `model.step(*args)` finds the wrapper in the instance `__dict__`, advances `steps` by
     exactly one, the wrapper stays in place, and `steps` equals the number of calls made so far. -/
 theorem C05_increments_exactly_once (h : Hier) (stopAt : Nat) (pre : Option Nat) (ops : List BOp)
     (hops : ∀ op ∈ ops, op.rebindsStep = false) (args : List Int) :
@@ -63,7 +63,7 @@ theorem C05_wrapper_delegates_to_step_captured_at_init (h : Hier) (stopAt : Nat)
     (pre = none → (o.call args).entries = (callStep o.inst args).2.1 ∧ (o.call args).ok = (callStep o.inst args).2.2 ∧
         (o.call args).obj.inst = (callStep o.inst args).1 ∧ (o.call args).fns = []) ∧
     (∀ f, pre = some f → (o.call args).entries = [] ∧ (o.call args).fns = [⟨f, o.inst.steps + 1, args⟩] ∧
-        (o.call args).ok = true) := by
+        (o.call args).ok = !raisesFn f) := by
   have hc := construct_wrapped h stopAt pre
   obtain ⟨hw, _⟩ := run_keeps_wrapper _ hc.1 ops h1
   have hu := run_userStep_of_no_setUser _ hc.1 ops h1 h2
@@ -100,6 +100,7 @@ theorem C05_rebinding_step_on_the_instance_stops_the_counter (h : Hier) (stopAt 
 
 /-- non-vacuity: a two-level chain, the base level overriding `step`; a function assigned before `Model.__init__`; re-binding -/
 example : ((Obj.construct [⟨false, false, false⟩, ⟨true, false, true⟩] 9 none).call [4]).entries = [⟨1, 1, [4]⟩] := by decide
+example : ((Obj.construct [] 9 (some 50)).call []).ok = false ∧ ((Obj.construct [] 9 (some 50)).call []).obj.inst.steps = 1 := by decide
 example : ((Obj.construct [⟨true, true, false⟩] 9 (some 3)).call [4]).fns = [⟨3, 1, [4]⟩] ∧
     ((Obj.construct [⟨true, true, false⟩] 9 (some 3)).call [4]).entries = [] := by decide
 example : (((Obj.construct [⟨true, false, false⟩] 9 none).run [.call [], .assign 2, .call [], .del, .call []]).inst.steps = 1) ∧
